@@ -69,7 +69,7 @@ func (m *hllMem) Exec(op Tok) (opOut Tok, obs Tok) {
 			idx, cnt := gx.VerifHLLIndexCount(h, a[2].B)
 			m.orc.add(key, []uint64{p}, a[2].B, []uint64{idx, cnt})
 		}
-		h.Update(a[2].B)
+		h.Update(el(a[2].B))
 		return opOut, TOk(TUnit())
 	case hlCount:
 		h := m.inst[a[1].I()]
@@ -212,6 +212,9 @@ func genC06(g *Gen, tier string) *Case {
 			ops = append(ops, TL(TNi(hlUpdate), TNi(3), TBs(x)))
 		}
 	}
+	if g.Chance(0.6) { // an estimate read before the merge must not survive it
+		ops = append(ops, TL(TNi(hlCount), TNi(2), TNi(0), TNi(0)))
+	}
 	ops = append(ops, TL(TNi(hlRegs), TNi(3)), TL(TNi(hlMerge), TNi(2), TNi(3)), TL(TNi(hlRegs), TNi(2)), TL(TNi(hlRegs), TNi(3)),
 		TL(TNi(hlCount), TNi(2), TNi(0), TNi(0)), TL(TNi(hlEquals), TNi(2), TNi(0)))
 	if g.Chance(0.5) { // idempotent / commutative / later updates
@@ -220,6 +223,19 @@ func genC06(g *Gen, tier string) *Case {
 		x := []byte(fmt.Sprintf("late%d", g.Intn(1000)))
 		ops = append(ops, TL(TNi(hlUpdate), TNi(2), TBs(x)), TL(TNi(hlUpdate), TNi(0), TBs(x)),
 			TL(TNi(hlRegs), TNi(2)), TL(TNi(hlRegs), TNi(0)))
+	}
+	if g.Chance(0.5) { // merge into a FRESH sketch, then update either side: the two stay separate objects
+		y := []byte(fmt.Sprintf("after%d", g.Intn(1000)))
+		z := []byte(fmt.Sprintf("after%d", 1000+g.Intn(1000)))
+		ops = append(ops, TL(TNi(hlNew), TNi(4), TNu(m)), TL(TNi(hlMerge), TNi(4), TNi(0)), TL(TNi(hlRegs), TNi(4)))
+		for j := 0; j < 1+g.Intn(6); j++ {
+			ops = append(ops, TL(TNi(hlUpdate), TNi(4), TBs([]byte(fmt.Sprintf("%s-%d", y, j)))))
+		}
+		ops = append(ops, TL(TNi(hlRegs), TNi(0)), TL(TNi(hlRegs), TNi(4)), TL(TNi(hlCount), TNi(0), TNi(0), TNi(0)))
+		for j := 0; j < 1+g.Intn(6); j++ {
+			ops = append(ops, TL(TNi(hlUpdate), TNi(0), TBs([]byte(fmt.Sprintf("%s-%d", z, j)))))
+		}
+		ops = append(ops, TL(TNi(hlRegs), TNi(4)), TL(TNi(hlRegs), TNi(0)), TL(TNi(hlCount), TNi(4), TNi(0), TNi(0)))
 	}
 	return &Case{Ops: ops}
 }
@@ -234,7 +250,7 @@ func monitorHLL(backend, prop string) Monitor {
 		type sh struct {
 			m    uint64
 			set  map[string]bool
-			regs string // last observed registers
+			regs string            // last observed registers
 			last map[string]uint64 // last Count per flag combination since the last non-monotone operation
 		}
 		st := map[int]*sh{}
